@@ -1,9 +1,17 @@
 #!/bin/bash
 # usage: seed_prompt.sh C07 /tmp/wt-C07  -> prints the sub-agent prompt (property text only; nothing from /verif's machinery)
-id=$1; wt=$2
-python3 - "$id" "$wt" <<'PY'
+id=$1; wt=$2; first=${3:-1}
+python3 - "$id" "$wt" "$first" <<'PY'
 import json,sys
 pid,wt=sys.argv[1],sys.argv[2]
+first=int(sys.argv[3]); a,b=first,first+1
+import os, glob
+avoid=''
+if first>1:
+    prev=[]
+    for d in sorted(glob.glob('/verif/seeded/%s-*/notes.md'%pid)):
+        prev.append('  - '+open(d).readline().strip().lstrip('# '))
+    avoid='\nEarlier volunteers already delivered the following changes for this property; yours must attack DIFFERENT functions or mechanisms than these:\n'+'\n'.join(prev)+'\n'
 p=[json.loads(l) for l in open('/verif/properties.jsonl') if json.loads(l)['id']==pid][0]
 print(f"""You are helping to evaluate verification tooling for the C++ library alibaba/PhotonLibOS. Your job is to play the role of a developer who introduces a subtle regression.
 
@@ -23,7 +31,8 @@ Task: produce TWO independent, different changes to the library source (not to t
   (d) needs something specific to manifest: a particular interleaving (e.g. two vCPUs / OS threads, or a timeout racing with a wake-up), a fault at a particular point, a multi-step sequence of operations, an unusual input, or two cooperating sites that each look fine alone. Do NOT make a change that ordinary use would expose at once (the existing tests would catch those anyway).
 The two changes should attack different mechanisms (e.g. one a locking/ordering/memory-order mistake, the other a dropped check / wrong condition / missing cleanup on an error path). Make them look like plausible refactorings, optimisations or honest mistakes; keep each small (a few lines).
 
-For each change i in {{1,2}} deliver in /tmp/seed-{pid}/:
+{avoid}
+For each change i in {{{a},{b}}} deliver in /tmp/seed-{pid}/:
   - change<i>.diff : `git diff` of the library change alone (relative to the pinned commit, apply-able with `git apply` at the repo root),
   - demo<i>.cpp (or a gtest file) : a demonstration program that FAILS (wrong result, hang detected by its own watchdog/timeout, crash, assertion) with the change applied and PASSES on the unmodified tree; it should exit non-zero on failure and 0 on success, and must finish within ~60 s either way. If the failure is probabilistic (a race), loop enough that it shows up reliably within that time, and say what the hit rate is,
   - notes<i>.md : what the change is, why it breaks the property, what it needs in order to manifest, the exact commands you used to build and run the demo, and the outputs you observed with and without the change; also confirm which existing tests you ran and that they passed.
@@ -34,7 +43,7 @@ Practical information:
     (if {wt}/_build already exists it has been built already: just run `cmake --build _build -j16` after editing).
     There is no network; everything needed is installed. The library is built with -std=c++14 -O2 -DNDEBUG (asserts are compiled out).
   - A demo program can be built against the worktree's library like this:
-      g++ -std=c++14 -O1 -DNDEBUG -I{wt}/include demo1.cpp -L{wt}/_build/output -lphoton -Wl,-rpath,{wt}/_build/output -lpthread -o demo1
+      g++ -std=c++14 -O1 -DNDEBUG -I{wt}/include demo{a}.cpp -L{wt}/_build/output -lphoton -Wl,-rpath,{wt}/_build/output -lpthread -o demo{a}
     Header-only templates (e.g. thread/go.h, common/lockfree_queue.h, common/range-lock.h, common/expirecontainer.h, rpc/serialize.h) are compiled into the demo itself, so a change there shows up by rebuilding the demo.
   - Existing tests: `ctest --test-dir {wt}/_build -j8 --timeout 900` (4–9 minutes). The list of tests that pass stably on the pinned tree is the "stable_pass" array in /root/.vp/BASELINE.json; the "always_fail" and "flaky" arrays list tests that fail offline anyway — ignore those. Your change must not make any stable test fail. At minimum run the test binaries related to the files you touched several times (they are in {wt}/_build/output/, e.g. test-thread, test-go-channel, test-lockfree, test-rpc, test-ooo, test-objcache, test-fs, cache_test ...), and run the whole suite once per change if time permits.
   - To switch between changes use `git -C {wt} stash` / `git -C {wt} checkout -- .` ; leave the worktree clean (no modifications) when you finish, with both diffs saved in /tmp/seed-{pid}/.
